@@ -8,13 +8,13 @@ STUBS = """
  * arguments, fwrite requires the range it is handed to be readable and records rows / one ghost component, fclose counts. */
 extern const void *__CPROVER_alloca_object;   /* CBMC's alloca bookkeeping global: written by __builtin_alloca, so it is in the frame */
 verif_FILE the_file;
-int g_hdr_calls, g_hdr_x, g_hdr_y, g_closed, g_rows;
+int g_hdr_calls, g_hdr_x, g_hdr_y, g_closed, g_rows; const char *g_hdr_fmt;
 unsigned long g_row_bytes_ok;            /* number of fwrite calls whose size*count was the expected row size */
 long g_row, g_j;                         /* ghost: row ordinal and component index inside the row that is observed */
 unsigned char g_val_u8; float g_val_f32; /* ghost: the observed component as written */
 unsigned long g_expect_row_elems, g_comp_size;
 verif_FILE *verif_fopen(const char *name, const char *mode) { return nondet__Bool() ? (verif_FILE *)0 : &the_file; }
-int verif_fprintf2(verif_FILE *f, const char *fmt, int a, int b) { __CPROVER_assert(f == &the_file, "FILE handle passed to fprintf is the opened file"); if (g_hdr_calls == 0) { g_hdr_x = a; g_hdr_y = b; } g_hdr_calls++; return 0; }
+int verif_fprintf2(verif_FILE *f, const char *fmt, int a, int b) { __CPROVER_assert(f == &the_file, "FILE handle passed to fprintf is the opened file"); if (g_hdr_calls == 0) { g_hdr_x = a; g_hdr_y = b; g_hdr_fmt = fmt; } g_hdr_calls++; return 0; }
 int verif_fprintf0(verif_FILE *f, const char *fmt) { __CPROVER_assert(f == &the_file, "FILE handle passed to fprintf is the opened file"); return 0; }
 unsigned long verif_fwrite(const void *p, unsigned long size, unsigned long n, verif_FILE *f)
 {
@@ -27,7 +27,52 @@ unsigned long verif_fwrite(const void *p, unsigned long size, unsigned long n, v
 }
 int verif_fclose(verif_FILE *f) { __CPROVER_assert(f == &the_file, "FILE handle passed to fclose is the opened file"); g_closed++; return 0; }
 """
-GA = ["g_hdr_calls", "g_hdr_x", "g_hdr_y", "g_closed", "g_rows", "g_row_bytes_ok", "g_val_u8", "g_val_f32", "__verif_exc", "__CPROVER_alloca_object"]
+GA = ["g_hdr_calls", "g_hdr_x", "g_hdr_y", "g_hdr_fmt", "g_closed", "g_rows", "g_row_bytes_ok", "g_val_u8", "g_val_f32", "__verif_exc", "__CPROVER_alloca_object"]
+
+
+C20_REPLAY = """
+#include <unistd.h>
+typedef %(PT)s PIX; typedef %(CT)s COMP;
+static bool probe(int sx, int sy)
+{
+  std::vector<PIX> img((size_t)sx * sy + 1);
+  COMP *raw = (COMP *)img.data();
+  for (size_t k = 0; k < (size_t)sx * sy * %(PC)d; k++) raw[k] = (COMP)(1 + k %% 251);      /* every component of every pixel distinct from its neighbours */
+  char name[] = "/tmp/verif_c20_XXXXXX"; int fd = mkstemp(name); if (fd < 0) { printf("cannot create temp file\\n"); exit(2); } close(fd);
+  %(CALL)s(std::string(name), sx, sy, img.data());
+  FILE *f = fopen(name, "rb"); std::vector<unsigned char> bytes; int ch; while ((ch = fgetc(f)) != EOF) bytes.push_back((unsigned char)ch); fclose(f); unlink(name);
+  size_t pos = 0; int nl = 0; while (pos < bytes.size() && nl < 3) if (bytes[pos++] == 10) nl++;
+  std::string hdr(bytes.begin(), bytes.begin() + pos);
+  char want_hdr[64]; snprintf(want_hdr, sizeof want_hdr, "%(HDR)s", sx, sy);
+  bool ok = hdr == want_hdr;
+  if (!ok) printf("%%dx%%d: header differs: got [%%s]\\n", sx, sy, hdr.c_str());
+  size_t want = (size_t)sx * sy * %(NC)d * sizeof(COMP);
+  if (bytes.size() - pos < want) { printf("%%dx%%d: payload is %%lu bytes, expected at least %%lu\\n", sx, sy, (unsigned long)(bytes.size() - pos), (unsigned long)want); return false; }
+  const unsigned char *out = bytes.data() + pos;
+  for (int r = 0; ok && r < sy; r++) for (long j = 0; j < (long)%(NC)d * sx; j++) {
+    long srow = %(FLIP)d ? sy - 1 - r : r, x = j / %(NC)d, c = j %% %(NC)d, sel = %(SEL)s;
+    COMP got; memcpy(&got, out + ((size_t)r * %(NC)d * sx + j) * sizeof(COMP), sizeof got);
+    COMP exp = raw[(srow * sx + x) * %(PC)d + sel];
+    if (memcmp(&got, &exp, sizeof got) != 0) { printf("%%dx%%d: file row %%d component %%ld: written %%g, the selected channel of pixel (x=%%ld, y=%%ld) is %%g\\n", sx, sy, r, j, (double)got, x, srow, (double)exp); ok = false; break; }
+  }
+  return ok;
+}
+int main()
+{
+  /* the counterexample's dimensions when the trace has them, then a fixed set of small images: any departure of the real
+   * writer from 'decoded pixels equal the input' on any of them is a reproduction on real code */
+  int dims[][2] = {{IN_in_sizeX, IN_in_sizeY}, {1, 1}, {2, 1}, {1, 2}, {2, 2}, {3, 2}, {4, 3}, {5, 7}};
+  bool ok = true;
+  for (unsigned k = 0; k < sizeof dims / sizeof dims[0]; k++) {
+    int sx = dims[k][0], sy = dims[k][1];
+    if (sx < 0 || sy < 0 || sx > 4096 || sy > 4096) continue;
+    if (!probe(sx, sy)) ok = false;
+  }
+  printf("%(CALL)s\\n");
+  printf("REPLAY RESULT: %%s\\n", ok ? "not reproduced" : "violation reproduced on real code");
+  return ok ? 0 : 1;
+}
+"""
 
 
 def io_models():
@@ -55,7 +100,7 @@ def io_models():
 def units():
     DIM = int(os.environ.get("VERIF_IMG_MAXDIM", "64" if os.environ.get("VERIF_TIER_EFFECTIVE") == "thorough" else "32"))
     U = Unit("c20_image", "units/c20_image.cpp", stubs=STUBS,
-             opts=dict(opaque_std=True, models=io_models(), ext_records={"_IO_FILE": [("g_opaque", "char")]}, rec_alias={"_IO_FILE": "verif_FILE"}))
+             opts=dict(opaque_std=True, models=io_models(), force_records=["_IO_FILE"], ext_records={"_IO_FILE": [("g_opaque", "char")]}, rec_alias={"_IO_FILE": "verif_FILE"}))
     U.stub("fopen/fprintf/fwrite/fclose", "ASSUMED interface models of <stdio.h>: fwrite's precondition (range readable) is checked at each call; file contents are the recorded calls")
     # (alias, N_COMP, PIXEL_COMP, FLIP, component C type, pixel elem type text, selected-channel rule)
     inst = [("wi_ppm", 3, 4, True, "unsigned char", "unsigned int"), ("wi_pgm", 1, 4, True, "unsigned char", "unsigned int"),
@@ -64,7 +109,7 @@ def units():
         csz = 1 if CT == "unsigned char" else 4
         state = """
   __CPROVER_assume(in_sizeX >= 0 && in_sizeX <= %(dim)d && in_sizeY >= 0 && in_sizeY <= %(dim)d);
-  p_pixel = (%(PT)s *)verif_malloc((unsigned long)in_sizeX * in_sizeY * sizeof(%(PT)s));
+  p_@PIX = (%(PT)s *)verif_malloc((unsigned long)in_sizeX * in_sizeY * sizeof(%(PT)s));
   g_hdr_calls = 0; g_closed = 0; g_rows = 0; g_row_bytes_ok = 0; g_row = nondet_long(); g_j = nondet_long();
   g_expect_row_elems = (unsigned long)%(NC)d * in_sizeX; g_comp_size = %(csz)d;
   __CPROVER_assume(g_row >= 0 && g_row < in_sizeY && g_j >= 0 && g_j < %(NC)d * (long)in_sizeX);
@@ -75,7 +120,10 @@ def units():
         src = "((const %s *)$4)[(%s * (long)$2 + %s) * %d + %s]" % (CT, srcrow, gx, PC, sel)
         val = "g_val_u8" if csz == 1 else "g_val_f32"
         eq = ("%s == %s" % (val, src)) if csz == 1 else ("FEQ(%s, %s)" % (val, src))
-        U.fn(nm, pre_call=state, arrays={"pixel": 1, "header": 1}, ptr_requires=False, nullable=["header"], timeout=1500, solver=["--sat-solver", "cadical"], flags=["--unwind", "16", "--unwinding-assertions"],
+        HDR = {"wi_ppm": "P6\n%i %i\n255\n", "wi_pgm": "P5\n%i %i\n255\n", "wi_pfm1": "Pf\n%i %i\n-1.0\n", "wi_pfm3": "PF\n%i %i\n-1.0\n", "wi_pfm3a": "PF\n%i %i\n-1.0\n", "wi_pfm4": "PF4\n%i %i\n-1.0\n"}[nm]
+        CALL = {"wi_ppm": "writePPM", "wi_pgm": "writePGM", "wi_pfm1": "writePFM<float>", "wi_pfm3": "writePFM<vec3f>", "wi_pfm3a": "writePFM<vec3fa>", "wi_pfm4": "writePFM<vec4f>"}[nm]
+        rp = C20_REPLAY % dict(PT=("uint32_t" if PT == "unsigned int" else PT), CT=CT, PC=PC, NC=NC, FLIP=int(FLIP), SEL=("3" if (NC == 1 and PC == 4) else ("0" if NC == 1 else "c")), CALL=CALL, HDR=HDR.replace("\n", "\\n"))
+        U.fn(nm, pre_call=state.replace("@PIX", "@4"), replay_native=rp, arrays={"pixel": 1, "header": 1}, ptr_requires=False, nullable=["header"], timeout=1500, solver=["--sat-solver", "cadical"], flags=["--unwind", "16", "--unwinding-assertions"],
              requires=["$2 >= 0 && $2 <= %d && $3 >= 0 && $3 <= %d" % (DIM, DIM), "(long)$2 * $3 == 0 || __CPROVER_r_ok($4, (unsigned long)$2 * $3 * sizeof(*$4))", "__verif_exc == 0",
                        "g_hdr_calls == 0 && g_closed == 0 && g_rows == 0 && g_row_bytes_ok == 0", "g_expect_row_elems == (unsigned long)%d * $2 && g_comp_size == %d" % (NC, csz),
                        "g_row >= 0 && g_row < $3 && g_j >= 0 && g_j < %d * (long)$2" % NC],
@@ -92,8 +140,27 @@ def units():
              ensures={
                  "open_failure_throws_runtime_error_and_writes_nothing": "IMP(__verif_exc != 0, g_rows == 0 && g_hdr_calls == 0)",
                  "header_receives_width_and_height": "IMP(__verif_exc == 0, g_hdr_calls == 1 && g_hdr_x == $2 && g_hdr_y == $3)",
+                 "header_is_written_with_the_format_passed_in": "(__verif_exc != 0 || __CPROVER_pointer_equals(g_hdr_fmt, $1))",
                  "exactly_height_rows_of_N_COMP_times_width_components": "IMP(__verif_exc == 0, g_rows == $3 && g_row_bytes_ok == (unsigned long)$3)",
                  "each_written_component_is_the_selected_channel_of_the_right_pixel": "IMP(__verif_exc == 0, %s)" % eq,
+                 "file_is_closed_exactly_once": "IMP(__verif_exc == 0, g_closed == 1)"})
+        # the public writer (writePPM / writePGM / writePFM<T>) on top of the writeImage contract: same postconditions, plus the header text
+        hdr_eq = " && ".join("g_hdr_fmt[%d] == %d" % (i, ord(ch)) for i, ch in enumerate(HDR + "\0"))
+        sh = lambda t: t.replace("$4", "$P").replace("$3", "$Y").replace("$2", "$X").replace("$P", "$3").replace("$Y", "$2").replace("$X", "$1")
+        for (variant, VD) in ((None, DIM), ("small_images", 2)):
+          # the small_images variant repeats the check for images of at most 2x2 pixels: redundant while the writer calls a writeImage
+          # instantiation that is under contract, but complete by unwinding (2 rows x 2 pixels x <= 4 components, unwind 5) when it does not
+          U.fn("w_" + nm[3:], variant=variant, replay_native=rp, pre_call=state.replace("@PIX", "@3").replace("<= %d" % DIM, "<= %d" % VD), arrays={"pixel": 1, "p": 1}, ptr_requires=False, timeout=600, solver=["--sat-solver", "cadical"], flags=["--unwind", "16" if variant is None else "5", "--unwinding-assertions"],
+             requires=[sh(r) for r in ["$2 >= 0 && $2 <= %d && $3 >= 0 && $3 <= %d" % (VD, VD), "(long)$2 * $3 == 0 || __CPROVER_r_ok($4, (unsigned long)$2 * $3 * sizeof(*$4))", "__verif_exc == 0",
+                       "g_hdr_calls == 0 && g_closed == 0 && g_rows == 0 && g_row_bytes_ok == 0", "g_expect_row_elems == (unsigned long)%d * $2 && g_comp_size == %d" % (NC, csz),
+                       "g_row >= 0 && g_row < $3 && g_j >= 0 && g_j < %d * (long)$2" % NC]],
+             assigns=GA,
+             ensures={
+                 "open_failure_throws_runtime_error_and_writes_nothing": "IMP(__verif_exc != 0, g_rows == 0 && g_hdr_calls == 0)",
+                 "header_receives_width_and_height": sh("IMP(__verif_exc == 0, g_hdr_calls == 1 && g_hdr_x == $2 && g_hdr_y == $3)"),
+                 "header_text_is_the_format_magic_with_width_height_and_range": "IMP(__verif_exc == 0, %s)" % hdr_eq,
+                 "exactly_height_rows_of_N_COMP_times_width_components": sh("IMP(__verif_exc == 0, g_rows == $3 && g_row_bytes_ok == (unsigned long)$3)"),
+                 "each_written_component_is_the_selected_channel_of_the_right_pixel": sh("IMP(__verif_exc == 0, %s)" % eq),
                  "file_is_closed_exactly_once": "IMP(__verif_exc == 0, g_closed == 1)"})
     return [U]
 
